@@ -1,6 +1,7 @@
 import NbioVerif.Lemmas.WsRoundTrip
 import NbioVerif.Lemmas.WsMaskProof
 import NbioVerif.Lemmas.WsTrunc
+import NbioVerif.Lemmas.WsHandshake
 /-! C12 — WebSocket message round trip: framing, masking, fragmentation, compression.
 
     Sender: `Ws.writeMessage` (WriteMessage / writeFrame) on an endpoint with configuration `gs` and environment `es`
@@ -10,15 +11,17 @@ namespace Ws
 
 /-- C12 (main theorem): any list of text/binary messages (with ping/pong messages in between) written by one endpoint is
     delivered to the other endpoint's message handler exactly once, in order, with the same type and payload and without
-    error — for both roles (`gs.isClient`), every 4-byte mask key per frame, every frame-size limit `gs.maxFrame > 0`
+    error — for both roles (`gs.isClient`), every 4-byte mask key per frame (the bytes are those of `appWrites`: the sequence of `appWrite` calls the
+    model driver runs, proved equal to `wireOf`), every frame-size limit `gs.maxFrame > 0`
     (any fragmentation), with or without per-message compression for every codec that satisfies the round-trip law
     (`MsgOK.codec`), every message limit that admits the messages, and every segmentation of the byte stream into reads.
     `MsgOK`: text payloads are valid UTF-8, control payloads are at most 125 bytes, sizes below 2^63 and within the limit. -/
 theorem c12_roundtrip (gs gr : Cfg) (es er : Env) (hkeys : ∀ i, (es.keyAt i).length = 4) (hmf : gs.maxFrame > 0)
     (hcomp : gs.writeCompression = true → gr.enableCompression = true) (hrl : gr.readLimit = 0)
     (ms : List (Nat × Bytes)) (hok : ∀ m ∈ ms, MsgOK gs gr es er m.1 m.2)
-    (segs : List Bytes) (hsegs : segs.flatten = wireOf gs es 0 ms) :
+    (segs : List Bytes) (hsegs : segs.flatten = appWrites gs es {} ms) :
     delivs (feed gr er {} segs []).acts = dataOf ms ∧ (feed gr er {} segs []).err = none := by
+  rw [appWrites_eq_wireOf gs es ms {} rfl] at hsegs
   have hw : Within gr {} := by intro _; simp [msgLen, K.len]
   have hnf : nextFrame gr {} = .need := by simp [nextFrame, decodeHdr]
   have hobs := feed_flatten gr er hrl segs {} [] hw hnf
@@ -32,6 +35,20 @@ theorem c12_roundtrip (gs gr : Cfg) (es er : Env) (hkeys : ∀ i, (es.keyAt i).l
   have he : (feed gr er {} segs []).err = none := by
     have := congrArg (fun o => o.2.1) hobs; simpa [PR.obs] using this
   exact ⟨by rw [ha, hd], he⟩
+
+/-- C12 (content restriction made explicit): a text message whose (inflated) payload is not valid UTF-8 is NOT delivered:
+    the receiver answers with a close frame (1002 "invalid UTF-8 bytes") and closes the conn. `c12_roundtrip` therefore
+    speaks about valid UTF-8 text and arbitrary binary payloads (`MsgOK.text`), as RFC 6455 §5.6/§8.1 demands. -/
+theorem c12_invalid_text_not_delivered (g : Cfg) (e : Env) (k1 : K) (out : Bytes) (hr : inflOf g e k1 = .ok out)
+    (hk : k1.connClosed = false) (h1 : k1.msgType = 1) (hu : utf8Valid out = false) :
+    ∃ a k', finishMsg g e k1 = .next k' (a ++ [.closeConn]) ∧ k'.connClosed = true ∧ NoDeliver a :=
+  finish_badutf8 g e k1 out hr hk h1 hu
+
+/-- C12 (truncWriter and flateReaderTail are inverse): what the receiver hands to the inflater is the sender's raw deflate
+    stream followed by a final empty stored block, for every chunking of a stream that ends with the sync-flush marker
+    (`flateReaderTail` is the constant regenerated from the code) -/
+theorem c12_trunc_tail (cs : List Bytes) (body : Bytes) (h : cs.flatten = body ++ [0, 0, 255, 255]) :
+    (twWrites [] cs).1 ++ Gen.flateReaderTail = cs.flatten ++ [1, 0, 0, 255, 255] := trunc_tail cs body h
 
 /-- C12 (masking): the strided `maskXOR` (64-byte blocks of 8-byte words, 8-byte words, byte tail) is the bytewise
     `b[i] ^= key[i % 4]`, for every length and key … -/
@@ -70,12 +87,113 @@ theorem c12_segmentation (g : Cfg) (e : Env) (hl : g.readLimit = 0) (segs : List
     (feed g e {} segs []).obs = (feed g e {} [segs.flatten] []).obs :=
   feed_segmentation g e hl segs {} (by intro _; simp [msgLen, K.len]) (by simp [nextFrame, decodeHdr])
 
+/-! ### the opening handshake decides the configuration (Model/WsHandshake.lean) -/
+
+/-- the frame-level configuration of an endpoint after the handshake (`newConn`), given its limits -/
+def cfgOfConn (c : WsH.ConnCfg) (isClient : Bool) (msgLimit readLimit maxFrame : Nat) : Cfg :=
+  { enableCompression := c.enableCompression, writeCompression := c.writeCompression, msgLimit, readLimit, maxFrame, isClient }
+
+/-- C12 (handshake round trip): for every request the Dialer renders (any options, any non-empty challenge key) and
+    every Upgrader configuration that lets it pass the origin hook and adds no extension header of its own, the Upgrader
+    answers 101, the Dialer accepts that response (status, Upgrade/Connection tokens, Sec-WebSocket-Accept, extension
+    parameters), and BOTH ends derive the same compression setting: receive and send compression are on at both ends iff
+    both sides enabled it. (Header keys are canonical as the HTTP parsers deliver them; SHA-1 is any function.) -/
+theorem c12_handshake_roundtrip (sha1 : WsH.Bytes → WsH.Bytes) (u : WsH.UCfg) (d : WsH.DCfg) (key : WsH.Bytes)
+    (hkey : key.isEmpty = false) (ho : u.originOk = true)
+    (hx : WsH.values u.respHeader (WsH.s "Sec-Websocket-Extensions") = []) (hne : WsH.NoExtHeader u) :
+    ∃ hd srv cli, WsH.upgradeDecision sha1 u (WsH.dialRequest d key) = .ok (hd, srv) ∧
+      WsH.dialerAccepts sha1 d key 101 (WsH.canonHeader hd) = .ok cli ∧
+      srv.enableCompression = (u.enableCompression && d.enableCompression) ∧ srv.writeCompression = (u.enableCompression && d.enableCompression) ∧
+      cli.enableCompression = (u.enableCompression && d.enableCompression) ∧ cli.writeCompression = (u.enableCompression && d.enableCompression) := by
+  have hc := WsH.commCheck_dial u d key hkey ho hx
+  have hd := WsH.dialer_accepts sha1 u d
+    { key, subprotocol := WsH.selectSubprotocol u (WsH.dialRequest d key), compress := u.enableCompression && d.enableCompression } hne
+  refine ⟨_, _, _, by unfold WsH.upgradeDecision; rw [hc], hd, ?_, rfl, ?_, rfl⟩
+  · cases u.enableCompression <;> cases d.enableCompression <;> rfl
+  · cases u.enableCompression <;> cases d.enableCompression <;> rfl
+
+/-- C12 (handshake ∘ round trip): the configurations the two ends derive from a successful handshake satisfy the
+    compression precondition of `c12_roundtrip` in both directions, so every message list written by either end after the
+    handshake is delivered unchanged by the other (stated for the server as sender; the other direction is symmetric) -/
+theorem c12_handshake_then_roundtrip (sha1 : WsH.Bytes → WsH.Bytes) (u : WsH.UCfg) (d : WsH.DCfg) (key : WsH.Bytes)
+    (hkey : key.isEmpty = false) (ho : u.originOk = true)
+    (hx : WsH.values u.respHeader (WsH.s "Sec-Websocket-Extensions") = []) (hne : WsH.NoExtHeader u)
+    (hd : WsH.Header) (srv cli : WsH.ConnCfg)
+    (hup : WsH.upgradeDecision sha1 u (WsH.dialRequest d key) = .ok (hd, srv))
+    (hdial : WsH.dialerAccepts sha1 d key 101 (WsH.canonHeader hd) = .ok cli)
+    (ls lc mf : Nat) (hmf : mf > 0) (es er : Env) (hkeys : ∀ i, (es.keyAt i).length = 4)
+    (ms : List (Nat × Bytes)) (hok : ∀ m ∈ ms, MsgOK (cfgOfConn srv false ls 0 mf) (cfgOfConn cli true lc 0 mf) es er m.1 m.2)
+    (segs : List Bytes) (hsegs : segs.flatten = appWrites (cfgOfConn srv false ls 0 mf) es {} ms) :
+    delivs (feed (cfgOfConn cli true lc 0 mf) er {} segs []).acts = dataOf ms ∧ (feed (cfgOfConn cli true lc 0 mf) er {} segs []).err = none := by
+  obtain ⟨hd', srv', cli', h1, h2, h3, h4, h5, h6⟩ := c12_handshake_roundtrip sha1 u d key hkey ho hx hne
+  rw [hup] at h1
+  cases h1
+  rw [hdial] at h2
+  cases h2
+  refine c12_roundtrip (cfgOfConn srv false ls 0 mf) (cfgOfConn cli true lc 0 mf) es er hkeys hmf ?_ rfl ms hok segs hsegs
+  intro hw
+  show cli.enableCompression = true
+  have : srv.writeCompression = true := hw
+  rw [h5, ← h4, this]
+
+/-- C12 (handshake, refusals): whenever the Upgrader answers 101 the request had method GET, an `upgrade` token in
+    Connection, a `websocket` token in Upgrade, the token 13 in Sec-WebSocket-Version (a list containing 13 is tolerated),
+    a non-empty Sec-WebSocket-Key (leniency of the code: the key is NOT required to be the base64 form of 16 bytes, as
+    §4.2.1 asks; no clause of C12/C13/C15 depends on it), passed the origin hook, and the caller did not smuggle in an
+    extension header: every request violating one of the other MUSTs of RFC 6455 §4.2.1 is refused with a 4xx/5xx status
+    and never sees 101. (Token lists are scanned by the model's `headerContains`; the harness compares that
+    with an independent split-and-trim reading on every generated request.) -/
+theorem c12_handshake_musts (sha1 : WsH.Bytes → WsH.Bytes) (u : WsH.UCfg) (r : WsH.Req) (hd : WsH.Header) (c : WsH.ConnCfg)
+    (h : WsH.upgradeDecision sha1 u r = .ok (hd, c)) :
+    r.method = WsH.s "GET" ∧ WsH.headerContains r.header (WsH.s "Connection") (WsH.s "upgrade") = true ∧
+    WsH.headerContains r.header (WsH.s "Upgrade") (WsH.s "websocket") = true ∧
+    WsH.headerContains r.header (WsH.s "Sec-Websocket-Version") (WsH.s "13") = true ∧
+    (WsH.get r.header (WsH.s "Sec-Websocket-Key")).isEmpty = false ∧ u.originOk = true := by
+  unfold WsH.upgradeDecision at h
+  cases hc : WsH.commCheck u r with
+  | error e => rw [hc] at h; cases h
+  | ok n =>
+    unfold WsH.commCheck at hc
+    repeat' split at hc
+    all_goals first | (cases hc; done) | skip
+    rename_i h1 h2 h3 h4 h5 h6 h7
+    refine ⟨by simpa using h3, by simpa using h1, by simpa using h2, by simpa using h4, by simpa using h7, by simpa using h6⟩
+
+/-- C12 (Accept key): `Sec-WebSocket-Accept` is base64(SHA-1(key ++ GUID)) with the GUID constant of the code (regenerated) -/
+theorem c12_accept_key (sha1 : WsH.Bytes → WsH.Bytes) (key : WsH.Bytes) :
+    WsH.acceptKey sha1 key = WsH.b64enc (sha1 (key ++ Gen.keyGUID)) := by
+  rw [WsH.keyGUID_table]; rfl
+
+/-- C12 (handshake tables, regenerated): the token-octet table of the code is the model's `isTokenOctet` -/
+theorem c12_token_table : Gen.tokenOctets = (List.range 256).map (fun n => WsH.isTokenOctet (UInt8.ofNat n)) := WsH.tokenOctets_table
+
+/-- the key leniency, as a fact about the model of the code: a malformed (but non-empty) key is answered with 101 -/
+example : (WsH.upgradeDecision (fun _ => []) { enableCompression := false, subprotocols := none, originOk := true, respHeader := [] }
+    (WsH.dialRequest { enableCompression := false, subprotocols := [], host := [] } (WsH.s "x"))).isOk = true := by
+  decide
+
+/-! non-vacuity of the handshake theorems: a conforming key, and a refused request -/
+example : WsH.validKey (WsH.s "dGhlIHNhbXBsZSBub25jZQ==") = true := by decide
+example : (WsH.upgradeDecision (fun _ => []) { enableCompression := true, subprotocols := none, originOk := true, respHeader := [] }
+    { method := WsH.s "POST", header := (WsH.dialRequest { enableCompression := true, subprotocols := [], host := [] } (WsH.s "dGhlIHNhbXBsZSBub25jZQ==")).header }).isOk = false := by
+  decide
+
 /-! non-vacuity: a client (masking) sends an empty text message, a ping and a 5-byte binary message in 2-byte fragments;
     the server receives the bytes one at a time -/
 def cliCfg : Cfg := { enableCompression := false, writeCompression := false, msgLimit := 0, readLimit := 0, maxFrame := 2, isClient := true }
 def srvCfg' : Cfg := { cliCfg with isClient := false }
 def keyEnv : Env := { keyAt := fun i => [UInt8.ofNat i, 7, 9, 11], deflate := id, inflate := fun _ => ⟨[], []⟩ }
 def demoMsgs : List (Nat × Bytes) := [(1, []), (9, [1]), (2, [1, 2, 3, 4, 5])]
+
+/-- non-vacuity of the compression branch: a codec that satisfies `MsgOK.codec` (stored, one read, EOF with the data),
+    both endpoints compressing, limit 16 -/
+def zCli : Cfg := { enableCompression := true, writeCompression := true, msgLimit := 16, readLimit := 0, maxFrame := 3, isClient := true }
+def zSrv : Cfg := { zCli with isClient := false }
+def zEnv : Env := { keyAt := fun i => [UInt8.ofNat i, 7, 9, 11], deflate := fun x => 42 :: x,
+                    inflate := fun m => ⟨m.drop 1, [⟨64, m.length - 1, 1⟩]⟩ }
+example : readAll zSrv.msgLimit ((zEnv.deflate [1, 2, 3]).length * 2) (zEnv.inflate (zEnv.deflate [1, 2, 3])) = .ok [1, 2, 3] := by decide
+example : delivs (feed zSrv zEnv {} ((appWrites zCli zEnv {} [(2, [1, 2, 3]), (1, [0x61])]).map fun b => [b]) []).acts = [(2, [1, 2, 3]), (1, [0x61])] := by
+  decide
 
 example : (wireOf cliCfg keyEnv 0 demoMsgs).length = 6 + 7 + 3 * 6 + 2 + 2 + 1 := by decide
 example : delivs (feed srvCfg' keyEnv {} ((wireOf cliCfg keyEnv 0 demoMsgs).map fun b => [b]) []).acts = [(1, []), (2, [1, 2, 3, 4, 5])] := by
